@@ -57,21 +57,24 @@ def _slice(prog, fname, pick):
     return fn, pre, prefix, idx_decl[0], jdecl, names, loop
 
 
-def h_partition(env, which, part):
+def h_partition(env, which, part, idx_hi=2 ** 31):
     """work split of the native permanent for ALL sizes: idx_max = number of Gray-code indices (1..2^31), hc = value returned
     by hardware_concurrency() (0..65536), job = any job index and its successor."""
     prog = cc.program(which)
     fname, pick = {"permanent": ("permanent_cpp", "complex<double>"), "laplace": ("permanent_laplace_cpp", "complex<double>")}[which]
     env.functions += cc.fn_refs(prog, "%s: thread count -> concurrency -> per-job offsets (clang-14 AST slice)" % fname)
     env.stubs += ["std::thread::hardware_concurrency() = symbolic integer 0..65536"]
-    IDX = env.ivar("idx_max", 1, 2 ** 31)
+    IDX = env.ivar("idx_max", 1, idx_hi)
     HC = env.ivar("n_threads", 0, 65536)
     J = env.ivar("job", 0, 2 ** 31) if part == "split" else None
     if env.mode == "num":
         # twin: the compiled kernel on the all-ones matrix with one counted row of multiplicity idx_max - 1 (idx_max Gray-code
         # indices) and the witness thread count; per(J_n) = n!
         import math
-        m = min(int(IDX), 12)
+        m = min(int(IDX), 14)
+        if int(IDX) > 14:
+            env.num_assumptions.append(("witness small enough for the native twin (idx_max <= 14)", False))
+            return
         if which == "laplace":
             got, ub = cc.native_permanent(numpy.ones((1, 1)), [m], [m + 1], int(HC), "L")
             got = got[0] if got else None
@@ -218,6 +221,7 @@ HARNESSES = {"partition": h_partition, "jobs": h_jobs, "rng_source": h_rng_sourc
 
 def instances(tier):
     out = [("partition", {"which": w, "part": p}) for w in ("permanent", "laplace") for p in ("count", "split")]
+    out += [("partition", {"which": w, "part": "split", "idx_hi": 14}) for w in ("permanent", "laplace")]     # same query with witnesses the native twin can replay
     out += [("jobs", {"rows": list(r), "cols": list(c)}) for r, c in (((1, 1), (1, 1)), ((2, 2), (3, 1)), ((2, 0, 1), (1, 1, 1)), ((3, 2), (4, 1)), ((2, 2, 1), (1, 3, 1)), ((4, 2, 1), (2, 3, 2)), ((2, 1, 2, 1), (1, 2, 2, 1)))]
     out += [("rng_source", {"sim": s, "shots": 2}) for s in ("pure", "mixed")]
     if tier == "thorough":
